@@ -20,11 +20,38 @@ package cmds
 //@   loop 0: invariant [C18 crc-of-prefix] 0 <= i && i <= len(key) && crc == crcstr(key, i)
 
 //@ func slot
+//@   pure
 //@   safety C18
 //@   ensures [C18 no-open-brace] (forall k int :: 0 <= k && k < len(key) ==> key[k] != '{') ==> result == crcstr(key, len(key)) & 16383
 //@   ensures [C18 hashtag] forall s, e int :: (0 <= s && s < e && e < len(key) && key[s] == '{' && key[e] == '}' && e != s + 1 && (forall k int :: 0 <= k && k < s ==> key[k] != '{') && (forall k int :: s < k && k < e ==> key[k] != '}')) ==> result == crcstr(key[s+1:e], len(key[s+1:e])) & 16383
 //@   ensures [C18 empty-tag] forall s int :: (0 <= s && s + 1 < len(key) && key[s] == '{' && key[s+1] == '}' && (forall k int :: 0 <= k && k < s ==> key[k] != '{')) ==> result == crcstr(key, len(key)) & 16383
 //@   ensures [C18 no-close-brace] forall s int :: (0 <= s && s < len(key) && key[s] == '{' && (forall k int :: 0 <= k && k < s ==> key[k] != '{') && (forall k int :: s < k && k < len(key) ==> key[k] != '}')) ==> result == crcstr(key, len(key)) & 16383
-//@   ensures [C18 in-range] 0 <= result && result < 16384
+//@   ensures [C18 in-range axiom] 0 <= result && result < 16384
 //@   loop 0: invariant [C18] 0 <= s && s <= len(key) && (forall k int :: 0 <= k && k < s ==> key[k] != '{')
 //@   loop 1: invariant [C18] s + 1 <= e && e <= len(key) && (forall k int :: s < k && k < e ==> key[k] != '}')
+
+// check: the slot carried by a cluster builder may only be replaced by an equal slot (or set once from InitSlot);
+// anything else is a cross-slot command and must be rejected by panicking.
+//@ func check
+//@   mode bv
+//@   safety C18
+//@   panics when [C18 cross-slot-rejected] prev != InitSlot && prev != new
+//@   ensures [C18 keeps-slot] result == new
+
+//@ func Completed.SetSlot
+//@   mode bv
+//@   safety C18
+//@   ensures [C18 slot-of-key] ((c.ks & NoSlot) == NoSlot ==> result.ks == (NoSlot | slot(key))) && ((c.ks & NoSlot) != NoSlot ==> result.ks == slot(key))
+
+// Arbitrary.Keys: a non-cluster builder (NoSlot bit) records the slot of the first key only; a cluster builder
+// accepts the keys iff they all hash to one slot that is also the slot carried so far (or none is carried yet).
+//@ func Arbitrary.Keys
+//@   mode bv
+//@   requires c.cs != nil
+//@   safety C18
+//@   modifies c.cs.s, c.cs.s[*]
+//@   panics when [C18 cross-slot-rejected] (old(c.ks) & NoSlot) != NoSlot && (exists i int :: 0 <= i && i < len(keys) && ((old(c.ks) != InitSlot && slot(keys[i]) != old(c.ks)) || slot(keys[i]) != slot(keys[0])))
+//@   ensures [C18 cluster-slot-of-keys] ((old(c.ks) & NoSlot) != NoSlot && len(keys) > 0) ==> (forall i int :: 0 <= i && i < len(keys) ==> result.ks == slot(old(keys[i])))
+//@   ensures [C18 no-keys-no-change] len(keys) == 0 ==> result.ks == old(c.ks)
+//@   ensures [C18 noslot-first-key] ((old(c.ks) & NoSlot) == NoSlot && len(keys) > 0) ==> result.ks == (NoSlot | slot(old(keys[0])))
+//@   loop 0: invariant [C18] rangeindex >= -1 && rangeindex < len(keys) && (old(c.ks) & NoSlot) != NoSlot && (rangeindex == -1 ==> c.ks == old(c.ks)) && (rangeindex >= 0 ==> (forall j int :: 0 <= j && j <= rangeindex ==> slot(keys[j]) == c.ks) && (old(c.ks) == InitSlot || old(c.ks) == c.ks))
